@@ -77,8 +77,9 @@ def run_one(m, runs, budget):
         t0 = time.time()
         p = subprocess.run([PY, RUNPY, "check", m["property"], "--tier", "quick"], env=env, capture_output=True, text=True, timeout=1800)
         lines = [l for l in p.stdout.splitlines() if l.startswith("VIOLATION") or l.startswith("  signature") or l.startswith("HARNESS")]
+        vr = [l for l in p.stdout.splitlines() if l.startswith("violating_runs=")]
         return {"id": m["id"], "property": m["property"], "exit": p.returncode, "wall": round(time.time() - t0, 1),
-                "lines": lines[:8], "tail": p.stdout.splitlines()[-1:] if p.returncode not in (0, 1) else []}
+                "violating_runs": (vr[0].split("=", 1)[1] if vr else "?"), "lines": lines[:8], "tail": p.stdout.splitlines()[-1:] if p.returncode not in (0, 1) else []}
     finally:
         shutil.rmtree(root, ignore_errors=True)
 
@@ -106,7 +107,7 @@ def main(argv):
             status = "CAUGHT" if caught else ("missed (expected: outside the property as checked)" if expected != "caught" else "MISSED")
             if not caught and expected == "caught":
                 missed += 1
-        print(f"{status:8s} {r['id']:34s} {r['property']} exit={r['exit']} {r['wall']}s  {m.get('what', '')[:90]}", flush=True)
+        print(f"{status:8s} {r['id']:34s} {r['property']} exit={r['exit']} {r['wall']}s violating_runs={r['violating_runs']}  {m.get('what', '')[:70]}", flush=True)
         for l in r["lines"][:4]:
             print("         ", l[:260], flush=True)
         for l in r["tail"]:
